@@ -339,8 +339,9 @@ func runPromCase(c *Case) string {
 }
 
 // gatherProm registers the returned collector in a fresh registry and gathers it:
-//   off                                   nothing is exported (licence off)
-//   subs:2,in:5,out:3,lag:5,proc:3.2      counter values / observation counts, proc by operator_index
+//
+//	off                                   nothing is exported (licence off)
+//	subs:2,in:5,out:3,lag:5,proc:3.2      counter values / observation counts, proc by operator_index
 func gatherProm(coll prometheus.Collector, arity int) (string, string) {
 	reg := prometheus.NewRegistry()
 	if err := reg.Register(coll); err != nil {
